@@ -35,7 +35,13 @@ func (d *Driver) read() {
 
 		rb, err := d.Channel.Read()
 		if err != nil {
-			d.errs <- err
+			// hand the error to the rpc in flight; with none in flight nobody is listening, and a
+			// close must still be able to stop this loop.
+			select {
+			case d.errs <- err:
+			case <-d.done:
+				return
+			}
 		}
 
 		b = append(b, rb...)
